@@ -238,3 +238,42 @@ def index_loop_bounds(ctx, b, an, idx):
     else:
         out = [(cl['init'], cl['bound']) for cl in counter_loops(an, b) if cl['var'] == nosite(i_t)]
     return out
+
+
+def call_variants(an, bi, ct, max_defs=4, args=None, depth=2):
+    """A call whose argument is the join of a few alternatives computed on different paths — `let m = match x {A => a,
+    B => b}; f(m)` instead of `match x {A => f(a), B => f(b)}` — stands for one call per alternative: returns
+    [(block that decides the alternative, call term with the alternative substituted)], or [(bi, ct)] when no argument is
+    such a join.  Only one joined argument (possibly nested inside Some(..)/&..) is expanded."""
+    phis = []
+    for ai, a in enumerate(ct[2]):
+        if args is not None and ai not in args:
+            continue
+        # the join itself, seen through borrows, copies and an enclosing Some(..) — not a join buried in arithmetic
+        cands = []
+        def peel(x, dd):
+            x = strip_all(x)
+            if x[0] == 'phi':
+                cands.append(x)
+            elif dd > 0 and x[0] in ('ref', 'deref'):
+                peel(x[1], dd)
+            elif dd > 0 and x[0] == 'agg' and (x[2] or '').endswith('option::Option') and x[3] == 'Some':
+                peel(x[4][0][1], dd - 1)
+        peel(a, depth)
+        for x in cands:
+            if x[0] == 'phi' and 2 <= len(x[2]) <= max_defs and x not in phis:
+                ds = [an.defs[k] for k in x[2]]
+                if all(d.kind in ('assign', 'call') and not d.partial for d in ds):
+                    # not a loop-carried value: no definition depends on the join itself
+                    if not any(x in set(subterms(an.def_term(d) if d.kind == 'assign' else an.call_term(d.bb))) for d in ds):
+                        phis.append(x)
+    if len(phis) != 1:
+        return [(bi, ct)]
+    ph = phis[0]
+    out = []
+    for k in ph[2]:
+        d = an.defs[k]
+        v = an.def_term(d) if d.kind == 'assign' else an.call_term(d.bb)
+        ct2 = trewrite(ct, lambda t: v if t == ph else None)
+        out.append((d.bb, ct2))
+    return out
